@@ -172,6 +172,20 @@ func c16(c *core.Ctx) {
 	if c.Config == "race" {
 		return
 	}
+	// very long hosts made of one repeated unit, for every character class (a per-call cost that grows faster than the
+	// input shows as a call that does not return within the watchdog)
+	units := []string{"a", "A", "Z", "0", ".", "-", "_", "~", "%41", "%", "ü", "Ü", "aA", "A.", "a-", "[", "]", ":", "@", "!", "$", "&", "'", "(", "*", "+", ",", ";", "="}
+	c.Section("long-inputs", int64(len(units)*3), func(i int64, _ *gen.Rand) {
+		unit := units[int(i)%len(units)]
+		size := []int{64 << 10, 1 << 20, 4 << 20}[int(i)/len(units)]
+		s := []string{"stun:", "turns:", "turn:"}[int(i)%3] + strings.Repeat(unit, size/len(unit)) + []string{"", ":3478", "?transport=udp"}[int(i)%3]
+		t0 := time.Now()
+		c16Call(c, s)
+		c.Max("max_ns_per_byte_for_inputs_over_4KiB", time.Since(t0).Nanoseconds()/int64(len(s)))
+		c.Count("inputs_over_4KiB", 1)
+		c.Eval(1)
+		c.Distinct(uint64(i) | 8<<50)
+	})
 	// random, grammar-mutated, control characters, invalid UTF-8, very long inputs
 	c.Section("random", c.N(60000, 10000000), func(i int64, r *gen.Rand) {
 		s := c16Random(r, i)
@@ -191,7 +205,8 @@ func c16(c *core.Ctx) {
 }
 
 func c16Random(r *gen.Rand, i int64) string {
-	hosts := []string{"example.org", "a", "1.2.3.4", "[::1]", "[fe80::1%25eth0]", "[fe80::1%eth0]", "[::1", "::1]", "[]", "[[::1]]", "[::1]x", "host:", ":", "", "ü.example", "%41", "a@b", "[/]", "[/a]", "[a/b]", "[example.org]", "[1.2.3.4]", "[.]"}
+	hosts := []string{"example.org", "a", "1.2.3.4", "[::1]", "[fe80::1%25eth0]", "[fe80::1%eth0]", "[::1", "::1]", "[]", "[[::1]]", "[::1]x", "host:", ":", "", "ü.example", "%41", "a@b", "[/]", "[/a]", "[a/b]", "[example.org]", "[1.2.3.4]", "[.]",
+		"a%2541.example.org", "a%3Ab.example.org", "%5Bexample%5D", "%2525", "A.Example.ORG"}
 	ports := []string{"", ":3478", ":0", ":65535", ":65536", ":-1", ":", ":x", ":+80", ":99999999999999999999", "::", ":3478:1"}
 	queries := []string{"", "?transport=udp", "?transport=tcp", "?transport=", "?", "?&", "?transport=udp&transport=tcp", "?x=1", "?transport=udp&x", "?%zz", "?transport=%75dp", "#frag", "?;"}
 	schemes := []string{"stun:", "stuns:", "turn:", "turns:", "stun://", "turn://", "STUN:", "http:", "", ":", "stun", "stun:stun:"}
